@@ -241,7 +241,9 @@ def make_midpass_fault(h, base_name, nth, label, counter):
     """Subclass of a real rewriting pass that raises from `flatname` on its nth call,
     i.e. between "popped the array / bundle / instance-bundle" and "reconnected its
     replacement"."""
-    import hdl21.elab.passes as P
+    import sys as _sys
+
+    P = _sys.modules["hdl21.elab.passes"]
 
     base = getattr(P, base_name)
     state = {"n": 0}
